@@ -177,7 +177,6 @@ def run(chk):
     roles = {
         "name validator": ix.get_function("validate_string"),
         "raise_or_warn helper": ix.get_function("raise_or_warn"),
-        "frame index set-up": ix.get_method("FrameItem", "_setup_frame_params_from_data"),
     }
     ve = ix.get_class("ValidatorEnum").methods.get("make_converter")
     if ve is None or not ve.nested:
@@ -195,11 +194,16 @@ def run(chk):
     chk.info["flag_readers"] = sorted(f.short for f in readers)
 
     raise_or_warn = roles["raise_or_warn helper"]
+    origin_cls = ix.get_class("OriginItem")
     for f, reads in sorted(readers.items(), key=lambda kv: kv[0].qualname):
         chk.consult(f)
         g = CFG(f.node)
         shape = None
         detail = ""
+        tshape = _term_shape(chk, f, origin_cls)
+        if tshape is not None:
+            chk.ok("R17.4", f"reader:{f.short}", f"shape={tshape}", f"{f.module.relpath}:{reads[0].lineno}")
+            continue
         for ifn, (te, fe) in g.branch.items():
             test = g.stmt[ifn].test
             if not any(is_flag_load(x) for x in ast.walk(test)):
@@ -330,33 +334,63 @@ def run(chk):
                 "R17.6", "check_data-dominates-frame-data",
                 "signed-integer data check does not precede construction of the frame data generator on every path",
                 mk.where)
-    timed = [f for f in ix.functions.values() if f.parent is writef]
-    ok = False
-    for tf in timed + [writef]:
-        g = CFG(tf.node)
-        sc = Scope(ix, tf)
-        co = lf.lookup("check_objects")
-        gen = ix.get_method("DLISFile", "generate_logical_records")
-        a = g.nodes_where(lambda s: _calls(ix, sc, s, co))
-        b = g.nodes_where(lambda s: _calls(ix, sc, s, gen))
-        if a and b:
-            ok = all(g.dominated_by(x, a | g.loops_always_through(a)) for x in b)
-            chk.consult(tf)
+    from ..terms import SELF, A, K, NONE, is_call, contains, subterms, pp, raise_conditions
+    gen = ix.get_method("DLISFile", "generate_logical_records")
+    cands = [writef] + [f for f in ix.functions.values() if f.parent is writef] + \
+        [f for f in cg.reachable([writef]) if f.module is writef.module and f.cls is writef.cls]
+    ok, found = False, False
+    for tf in dict.fromkeys(cands):
+        su = chk.terms.summary(tf)
+        gi = [i for i, e in enumerate(su.effects) if any(
+            isinstance(t, tuple) and any(is_call(x, "generate_logical_records") for x in subterms(t))
+            for t in (e.base, e.key, e.value))]
+        gi += [len(su.effects)] if any(is_call(x, "generate_logical_records") for _, t, _ in su.returns
+                                       for x in subterms(t)) else []
+        if not gi or tf is gen:
+            continue
+        # (a generation bound to a local first appears inside the effect that consumes it - which is later still)
+        ci = [i for i, e in enumerate(su.effects) if e.kind == "call" and is_call(e.value, "check_objects")
+              and not e.pc and len(e.loops()) == 1 and e.loops()[0][0] == "for"
+              and e.loops()[0][2] in (A(SELF, "logical_files"), A(("free", "self"), "logical_files"))
+              and e.value[1][1] == ("elem", e.loops()[0][2], e.loops()[0][1])]
+        found = True
+        ok = bool(ci) and min(ci) < min(gi)
+        chk.consult(tf)
+        break
+    if not found:
+        raise AnalysisError("the function that calls generate_logical_records on the write path was not found")
     chk.require(ok, "R17.6", "check_objects-dominates-generation",
-                "channel-frame assignment check does not precede record generation in write()", writef.where)
-    # the spacing check cannot be bypassed: every normal path through the frame set-up either takes the
-    # "no index type" branch or computes spacing / direction from the data
-    fsp = ix.get_method("FrameItem", "_setup_frame_params_from_data")
-    g = CFG(fsp.node)
-    sc = Scope(ix, fsp)
-    comp = ix.get_class("FrameItem").lookup("_compute_spacing_and_direction")
-    cn = g.nodes_where(lambda s_: _calls(ix, sc, s_, comp))
-    noidx = {te for ifn, (te, fe) in g.branch.items() if "index_type" in norm(g.stmt[ifn].test)
-             and "is None" in norm(g.stmt[ifn].test)}
-    chk.require(bool(cn) and g.must_pass_through(cn | noidx, ENTRY, EXIT, exceptional=False), "R17.6",
-                "spacing-check-not-bypassable",
-                "a path through the frame set-up of an indexed frame returns without computing the spacing of the index "
-                "(the uniform-spacing restriction is skipped, e.g. when a spacing value is already present)", fsp.where)
+                "the object checks (channel-frame assignment, ...) of every logical file do not unconditionally precede "
+                "record generation in write()", writef.where)
+    # the spacing restriction: in the (inlined) frame set-up an indexed frame with non-uniform spacing raises in the
+    # mode, and nothing else (such as a spacing value already present) lets that path off
+    fsetup = ix.get_method("FrameItem", "setup_from_data")
+    fs = chk.terms.inline(fsetup, 4)
+    flag = A(("global", "global_config"), FLAG)
+    hits = []
+    for pc, exc in raise_conditions(fs):
+        if flag in pc:
+            nonuni = [l for l in pc if l[0] == "cmp" and l[1] == "is" and l[3] == NONE and l[2][0] == "sub"
+                      and l[2][1][0] == "call" and l[2][2] == K(0)]
+            if nonuni:
+                hits.append((pc, nonuni[0]))
+    chk.require(bool(hits), "R17.4", "consults-flag:frame index set-up",
+                "the frame set-up no longer raises, in the mode, for an index whose spacing is not uniform", fsetup.where)
+    for pc, nonuni in hits:
+        extra = []
+        for l in pc:
+            if l in (flag, nonuni):
+                continue
+            if contains(l, A(SELF, "index_type", "value")) or (contains(l, A(SELF, "channels", "value"))
+                                                                and l[0] != "cmp"):
+                continue
+            if contains(l, lambda x: x[0] == "attr" and x[2] == "ndim"):
+                continue
+            extra.append(l)
+        chk.require(not extra, "R17.6", "spacing-check-not-bypassable",
+                    f"the uniform-spacing restriction is enforced only under {[pp(l)[:60] for l in extra]}: a path through "
+                    f"the frame set-up of an indexed frame skips it (e.g. when a spacing value is already present)",
+                    fsetup.where)
     if "decorator_forms" in chk.info:
         chk.floor("decorator forms entering the context manager", chk.info["decorator_forms"], 1)
     cof = lf.lookup("check_objects")
@@ -597,3 +631,51 @@ def _is_allowed_class_plus(tree) -> bool:
             return False
     want = set(range(ord("A"), ord("Z") + 1)) | set(range(ord("0"), ord("9") + 1)) | {ord("_"), ord("-")}
     return chars == want
+
+
+def _term_shape(chk, f, origin_cls):
+    """Classify a reader of the mode flag on its value-flow summary:
+    'raise'       some raise happens whenever the flag is set (every literal of its path condition is true or
+                  undetermined with the flag on, and one of them is true because of the flag);
+    'sequential-file-set-number'   (ORIGIN) with the flag on, the value produced / stored derives from the number of
+                  origins and from no random source.
+    None: not decided here (the CFG-based classification follows)."""
+    from ..terms import A, raise_conditions, return_alternatives, attr_stores, contains, pp
+    flag = A(("global", "global_config"), FLAG)
+    su = chk.terms.summary(f)
+
+    def ev(t, val):
+        if t == flag:
+            return val
+        if t[0] == "not":
+            v = ev(t[1], val)
+            return None if v is None else not v
+        if t[0] in ("and", "or"):
+            vs = [ev(x, val) for x in t[1]]
+            if t[0] == "and":
+                return False if any(v is False for v in vs) else (True if all(v is True for v in vs) else None)
+            return True if any(v is True for v in vs) else (False if all(v is False for v in vs) else None)
+        return None
+    for pc, exc in raise_conditions(su):
+        on = [ev(l, True) for l in pc]
+        off = [ev(l, False) for l in pc]
+        if any(v is False for v in on):
+            continue
+        if any(a is True and b is not True for a, b in zip(on, off)):
+            return "raise"
+    owner = f
+    while owner.cls is None and owner.parent is not None:
+        owner = owner.parent
+    if owner.cls is not None and any(k is origin_cls for k in owner.cls.mro()):
+        vals = [(c, t) for c, t in return_alternatives(su)]
+        vals += [(e.pc, v) for obj, k, v, e in attr_stores(su) if contains(obj, lambda x: x[0] == "attr" and
+                                                                           x[2] == "file_set_number")]
+        on_vals = [t for c, t in vals if flag in c]
+        off_vals = [t for c, t in vals if ("not", flag) in c]
+        if on_vals and off_vals:
+            rnd = any("random" in pp(t) for t in on_vals)
+            seq = all(contains(t, lambda x: x[0] == "attr" and x[2] in ("n_items",)) or
+                      contains(t, lambda x: x[0] == "call" and pp(x[1]) == "len") for t in on_vals)
+            if seq and not rnd:
+                return "sequential-file-set-number"
+    return None
